@@ -53,6 +53,13 @@ class C15:
             for seq in itertools.product(alpha, repeat=n):
                 cases.append("agg " + " ".join("%d %s" % (c, S(t)) for c, t in seq))
                 dist.add("agg:exhaustive-len-%d" % n)
+        # every three-digit code as the member that decides: after a positive member, before one, and alone (no code has a
+        # meaning of its own for the aggregate)
+        for c in range(0, 1000):
+            cases.append("agg 229 %s %d %s" % (S("229 x"), c, S("t")))
+            cases.append("agg %d %s 226 %s" % (c, S("t"), S("226 x")))
+            cases.append("agg %d %s" % (c, S("t")))
+        dist.add("agg:every-code-0..999-in-3-positions", 3000)
         pool_c = [100, 120, 150, 199, 200, 226, 230, 299, 300, 331, 350, 399, 400, 421, 426, 450, 499, 500, 550,
                   599, 600, 999, 1000, 65534, 65535, 0]
         pool_t = ["", "", "226 ok", "150-a\r\n150 b", "\r\n", "\r", "\n", "x", "550 no", "\x00\xff"]
@@ -440,6 +447,17 @@ class C05:
                         full.append(k[len(full) % len(k)])
                     cases.append("adown %s %s" % (",".join(map(str, full)), S(t)))
                     dist.add("adown:cyclic-partitions-long")
+        # every byte value in every context: alone, after CR, before LF, between CR and LF, after LF, doubled - "all other
+        # bytes unchanged" is a claim about 254 byte values, not about 'x'
+        for v in range(256):
+            ch = bytes([v])
+            for t in (ch, b"\r" + ch, ch + b"\n", b"\r" + ch + b"\n", b"\n" + ch + b"\r", ch + ch, b"a" + ch + b"\r\n" + ch):
+                h = H(t)
+                cases.append("aup 8192 8192 - %s" % h)
+                cases.append("aup 1 1 1 %s" % h)
+                cases.append("adown %s %s" % (str(len(t)), h))
+                cases.append("adown %s %s" % (",".join("1" * len(t)), h))
+        dist.add("aup/adown:every-byte-value-in-7-contexts", 256 * 7 * 4)
         # random long strings (block boundaries at 8192 matter for the real buffers)
         for _ in range(300 if thorough else 60):
             n = rng.choice([100, 1000, 8190, 8191, 8192, 8193, 16384, 20000])
